@@ -108,10 +108,17 @@ def _history(seed):
     largest = {}
     bad = []
     steps = []
+    # packet-number spaces as RFC 9000 12.3 defines them (0-RTT and 1-RTT share the application data space) -- NOT taken from the code
+    space = {QuicPacketType.INITIAL: "initial", QuicPacketType.HANDSHAKE: "handshake", QuicPacketType.RTT_1: "application", QuicPacketType.RTT_O: "application"}
+    burst = None
     for _ in range(60):
         srv = rng.random() < 0.5
         pt = rng.choice(types)
-        key = (srv, PACKET_TYPE_MAP[pt])
+        if burst:                      # e.g. a 0-RTT flight followed by 1-RTT packets of the same direction
+            srv, pt = burst.pop(0)
+        elif rng.random() < 0.1:
+            burst = [(False, QuicPacketType.RTT_O)] * rng.randint(2, 5) + [(False, QuicPacketType.RTT_1)] * 2
+        key = (srv, space[pt])
         l = largest.get(key, None)
         nb = rng.choice([1, 2, 3, 4])
         win = 1 << 8 * nb
@@ -130,7 +137,7 @@ def _history(seed):
             break
         largest[key] = pn if l is None else max(l, pn)
         tab = sess.packet_number_server if srv else sess.packet_number_client
-        if tab[PACKET_TYPE_MAP[pt]] != largest[key]:
+        if PACKET_TYPE_MAP[pt] in tab and tab[PACKET_TYPE_MAP[pt]] != largest[key]:
             bad.append(f"history step {len(steps)}: largest of the space is {tab[PACKET_TYPE_MAP[pt]]}, expected {largest[key]}")
             break
     return bad, steps
